@@ -37,7 +37,9 @@ F_SIZE = "P13b-getsize-nonleaf-counts-child-handles"
 F_ASSERT = "P13c-coordlist-getsize-empty-nonleaf-asserts"
 
 RULE = ("Tensors of depth 1-3 are built with Tensor.fromUncompressed from a generated dense nest (shape 1-6 per "
-        "rank, 1-D up to 70, any density incl. all-zero, zeroed rows/slabs = empty fibers). Every case encodes the "
+        "rank, 1-D up to 70, any density incl. all-zero, zeroed rows/slabs = empty fibers); two thirds of the cases are "
+        "then made non-canonical through getPayloadRef (explicit 0 leaves, explicitly empty sub-fibers, sub-fibers "
+        "holding only explicit zeros) without changing the content. Every case encodes the "
         "tensor under ALL 3^depth descriptors over {U,C,B}, each without shape= and with an imposed shape "
         "(natural + grow, grow >= 0, sometimes > 32 so that bit masks span several words). Oracle: (1) a decoder "
         "written from the format descriptions only (implicit positions, explicit coordinates, bit masks, "
@@ -45,14 +47,15 @@ RULE = ("Tensors of depth 1-3 are built with Tensor.fromUncompressed from a gene
         "consume every per-rank array completely and reproduce exactly the nest's non-zero content; (2) every "
         "encoded fiber object scanned with setupSlice/nextInSlice/handleToCoord/handleToPayload/payloadToValue "
         "and a stub cache yields the decoded fiber's elements (also from every start coordinate); non-leaf "
-        "payload handles index the child fiber objects in DFS order; (3) CoordinateList.coordToHandle(q) for "
+        "payload handles index the child fiber objects in DFS order; an interleaved walk of the whole encoded "
+        "tensor (each child scanned while its parent's scan is still in progress) yields exactly the content; (3) CoordinateList.coordToHandle(q) for "
         "every q in [-1, shape] is the index of the first stored coordinate >= q, None past the end; "
         "(4) getSize() equals the number of words the decoder consumed for that fiber (mask words = "
         "ceil(bits/32)). Non-trivial: depth >= 2 and at least one empty fiber is encoded (all descriptors, hence "
         "all mixed ones, are run for every case). Distinct = SHA-1 of the generated case.")
 ASSUMPTIONS = [
-    "tensors are canonical fromUncompressed trees with default 0 and int / dyadic-float leaves (the codec "
-    "compares leaf payloads with 0 and is only ever called on such tensors by the codec scripts)",
+    "tensors are fromUncompressed trees with default 0 and int / dyadic-float leaves, optionally with explicit "
+    "zeros / empty sub-fibers inserted through getPayloadRef (explicit zeros are not content)",
     "the codec is called the way codec/swoop_util.py:encodeSwoopTensorInFormat calls it: Codec(tuple(desc), "
     "[True]*n), get_output_dict(rank_ids), encode(-1, root, rank_ids, output, output_tensor, shape=...)",
     "an imposed shape is >= the natural shape in every rank (asserted by Codec.encode)",
@@ -732,7 +735,7 @@ PARTS = [
          exhaustive_note="every zero/non-zero pattern of the shapes [1]..[4], [1,1]..[3,2], [1,2,2], [2,1,2], "
                          "[2,2,1], [2,2,2] (thorough: also [5], [6], [3,3], [2,4], [2,2,3], [3,2,2]) x all 3^depth "
                          "descriptors x {no shape, shape+1 in every rank}"),
-    Part("codec", cases(), check, n_quick=600, n_thorough=2500),
+    Part("codec", cases(), check, n_quick=450, n_thorough=2500),
 ]
 
 
@@ -740,7 +743,9 @@ def coverage_warnings(rec):
     n = max(1, sum(v for k, v in rec.classes.items() if k.startswith("codec:depth")))
     out = []
     for k, floor in (("codec:empty-fiber-depth>=2", 0.3), ("codec:all-zero", 0.03), ("codec:dense", 0.03),
-                     ("codec:imposed>natural", 0.5), ("codec:mask>32bits", 0.08), ("codec:depth3", 0.2)):
+                     ("codec:imposed>natural", 0.5), ("codec:mask>32bits", 0.08), ("codec:depth3", 0.2),
+                     ("codec:explicit-zero-leaf", 0.2), ("codec:explicit-empty-subfiber", 0.08),
+                     ("codec:canonical", 0.2)):
         if rec.classes.get(k, 0) / n < floor:
             out.append(f"{k} only {rec.classes.get(k, 0)}/{n}")
     return out
